@@ -5,11 +5,11 @@
 EXTENDS Integers, Sequences, TLC, Json, IOUtils, FiniteSets, SequencesExt
 Tier == IF "VERIF_TIER" \in DOMAIN IOEnv THEN IOEnv.VERIF_TIER ELSE "quick"
 Out  == IOEnv.VERIF_OUT
-Reps == IF Tier = "quick" THEN 1 ELSE 12
+Reps == IF Tier = "quick" THEN 1 ELSE 60
 Blank == [kind |-> "", blk |-> 0, others |-> "", odd |-> "", n |-> 0, val |-> "", rep |-> 0]
 Cases == {[Blank EXCEPT !.kind = "dlog", !.blk = b, !.others = o, !.odd = d, !.rep = r] : b \in 0 .. 3, o \in {"zero", "rnd"}, d \in {"one", "rnd"}, r \in 1 .. Reps}
          \cup {[Blank EXCEPT !.kind = "special", !.val = s] : s \in {"0", "1", "2", "4", "p-1", "p-2", "5", "h", "g", "g2"}}
-         \cup {[Blank EXCEPT !.kind = k, !.n = (IF Tier = "quick" THEN 150 ELSE 5000), !.rep = r] : k \in {"random", "square", "point"}, r \in 1 .. Reps}
+         \cup {[Blank EXCEPT !.kind = k, !.n = (IF Tier = "quick" THEN 150 ELSE 10000), !.rep = r] : k \in {"random", "square", "point"}, r \in 1 .. Reps}
          \cup {[Blank EXCEPT !.kind = "tables"]}
 VARIABLE done
 Init == done = FALSE
